@@ -426,11 +426,24 @@ package http2
 //@ ensures err: r1 != nil ==> r0 == nil
 
 //@ func HuffmanEncode
-//@ props C15
+//@ props C15 C04
+//@ # "src and dst must not point to the same address": writing the output into spare capacity that overlaps src would corrupt it
+//@ requires sep: bufsep(dst, src)
 //@ modifies capacity(dst)
-//@ opt body=skip
+//@ # ---- outer loop: fewer than 8 bits are pending; octets written so far plus pending bits account for exactly the
+//@ # code lengths of the symbols consumed (RFC 7541 5.2: codes are concatenated without gaps) ----
+//@ loop 0: invariant pend: length >= 0 && length < 8
+//@ loop 0: invariant keep: len(dst) >= len(old(dst)) && dst[:len(old(dst))] == old(dst)
+//@ loop 0: invariant place: (samearray(dst, old(dst)) && offset(dst) == offset(old(dst)) && cap(dst) == cap(old(dst))) || fresh(dst)
+//@ loop 0: invariant bits: 8 * (len(dst) - len(old(dst))) + length == spec.hbits(old(src), rangeindex + 1)
+//@ # ---- inner loop: every octet appended is the 8-bit window of the accumulator just above the bits still pending ----
+//@ loop 1: invariant pend: length >= 0 && length <= entry(length) && (entry(length) - length) % 8 == 0 && entry(length) < 38
+//@ loop 1: invariant keep: len(dst) >= len(old(dst)) && dst[:len(old(dst))] == old(dst) && len(dst) == entry(len(dst)) + (entry(length) - length) / 8
+//@ loop 1: invariant place: (samearray(dst, old(dst)) && offset(dst) == offset(old(dst)) && cap(dst) == cap(old(dst))) || fresh(dst)
 //@ ensures keep: len(r0) >= len(dst) && r0[:len(dst)] == old(dst)
 //@ ensures place: (samearray(r0, dst) && offset(r0) == offset(dst) && cap(r0) == cap(dst)) || fresh(r0)
+//@ # the output is exactly as long as the codes need, rounded up to whole octets (padding < 8 bits)
+//@ ensures size: 8 * (len(r0) - len(dst)) >= spec.hbits(old(src), len(src)) && 8 * (len(r0) - len(dst)) < spec.hbits(old(src), len(src)) + 8
 
 //@ func errors.New
 //@ trusted
